@@ -53,7 +53,7 @@ def plan(tier):
     return {"cases": 60, "timeout": 400, "wall_budget": 100, "recheck": 2, "nproc": 6}
 
 def gen_case(rng, tier, index):
-    feats = {"shared", "checkoutscript"} | set(rng.sample(["import", "vars", "tools", "provideVars", "classes", "diamond", "provideDeps", "depenv"], rng.randint(1, 5)))
+    feats = {"shared", "checkoutscript"} | set(rng.sample(["import", "vars", "tools", "provideVars", "classes", "diamond", "provideDeps", "depenv", "twins"], rng.randint(1, 5)))
     model = projgen.gen_valid_project(rng, nmin=3, nmax=6, features=feats)
     ops = [{"ws": "A", "upload": True, "download": "no", "jobs": rng.choice([1, 2]), "seed": rng.getrandbits(32)}]
     hist = [model]
